@@ -12,7 +12,7 @@ RULE = ("Cases: pool kind FunctorPool / FactoryFunctorPool (no quota), workers 1
         "line of own_proc_pools.py / buffers.py is a preemption point) with a generated schedule (<=6 deviations from a base policy, "
         "PCT priorities, or a seeded sticky walk). Oracle: the fully consumed call yields [f(x) for x in data] (imap) / the same "
         "multiset with in-chunk order (imap_unordered); no exception leaves the consumer or any pool thread; after the call no queue "
-        "holds a result or work chunk (payload-free tokens ignored). E5: every schedule with <=1 (quick) / <=2 (thorough) deviations "
+        "holds a result or work chunk (payload-free tokens ignored); a call that hangs before all of map(f, data) was yielded has lost those results. E5: every schedule with <=1 (quick) / <=2 (thorough) deviations "
         "for five small configurations (two of them with preemption at every attribute access of the pool object, i.e. also inside a source line); additionally every schedule with <=2 deviations placed right before accesses to attributes of the pool object (shared state) for two small configurations. Non-trivial: a chunk result reached the results queue out of index order, or the schedule "
         "deviates from the base policy, or flow control paused the feeder. Distinct = distinct (configuration, interleaving signature).")
 EXPLANATION = "exhaustive sub-domain: all schedules with <=b deviations from two base policies for the listed small configurations"
@@ -30,7 +30,20 @@ def shard_setup(shard, nshards):
 
 
 def verdicts(case, res):
-    return P.value_verdicts(case, res)
+    out = P.value_verdicts(case, res)
+    if not out and isinstance(res.outcome, tuple) and res.outcome[0] == "deadlock" and not res.left_context \
+            and res.calls_done < len(case["calls"]) and len(res.outputs) > res.calls_done:
+        # the call can never be consumed to its end and part of map(f, data) has not been yielded: those results are lost to the
+        # caller (a call that hangs after everything was yielded is C02's business alone)
+        ci = res.calls_done
+        exp = P.expected_for(case["calls"][ci], ci)
+        got = res.outputs[ci]
+        if len(got) < len(exp):
+            name = "FactoryFunctorPool" if case["pool"] == "factory" else "FunctorPool"
+            mode = "imap" if case["calls"][ci]["mode"] == "o" else "imap_unordered"
+            out.append(("%s/%s/results-never-delivered-call-hangs" % (name, mode),
+                        "call %d yielded %d of %d results and can never continue: %s" % (ci, len(got), len(exp), P.describe_deadlock(res))))
+    return out
 
 
 def run_case(case, ctx):
